@@ -70,7 +70,9 @@ EXTRA_KEYS = [("zz_unknown", 1), ("x_custom", 1), (1, 1), (None, 1), (b"k", 1), 
               # keys that name parameters of the implementation's own constructors
               ("self", True), ("kwargs", True),
               # an integer key beyond the int -> str digit limit (CBOR / MsgPack maps may have integer keys)
-              (BIGNUM, 1)]
+              (BIGNUM, 1),
+              # names that are valid elsewhere: a router role in HELLO.roles / a client role in WELCOME.roles
+              ("broker", {}), ("dealer", {"features": {}}), ("caller", {}), ("subscriber", {"features": {}})]
 
 
 def main(ctx):
@@ -359,6 +361,15 @@ class _Env:
             "cbor": S.CBORSerializer(), "cbor.batched": S.CBORSerializer(batched=True),
             "ubjson": S.UBJSONSerializer(), "ubjson.batched": S.UBJSONSerializer(batched=True),
         }
+        # the documented statistics auto-reset, in its three legal forms, is active on some of the
+        # serializers (time only / count only / both): it must never change what unserialize() raises
+        self.autoresets = 0
+
+        def _cb(stats_):
+            self.autoresets += 1
+        self.sers["json"].set_stats_autoreset(None, 10 ** 15, _cb)
+        self.sers["msgpack"].set_stats_autoreset(3, None, _cb)
+        self.sers["cbor.batched"].set_stats_autoreset(5, 10 ** 15, _cb)
         self.pt = _PassThrough()
         self.env_ser = S.Serializer(self.pt)
         self.klass = {code: getattr(message, G.MESSAGES[name].pyclass)
